@@ -1,5 +1,7 @@
 import IrVerif.Drive.Util
 import IrVerif.Model.Kernel
+import IrVerif.Model.KernelView
+import IrVerif.Model.KernelFix
 /-! Protocol handler for the IR kernel model.
 `{"m":"kernel.run","ops":[op,…]}` → `{"steps":[{"o":"ok"|"raised","k":kind,"eq":bool,"d":delta},…]}`
 where `delta` lists the records that are new or changed and `eq` says whether the world after the step is structurally equal to the world before it. -/
@@ -169,6 +171,53 @@ def parseAny (j : Json) : Except String AnyOp := do
         (← getNatList j "newNodes") (← getNatList j "oldVals") (← getNatList j "newVals"))
   | _ => return .one (← parseOp j)
 
+/-- the `GraphView` operations (`Model/KernelView.lean`); `none` = not a view operation -/
+def parseView (j : Json) : Except String (Option ViewOp) := do
+  let o ← getStr j "op"
+  match o with
+  | "newView" =>
+    return some (.newView (← getNatList j "inputs") (← getNatList j "outputs") (← getNatList j "nodes")
+      (← getNatList j "inits"))
+  | "viewSet" =>
+    let slot ← getStr j "slot"
+    if slot == "inputs" then return some (.setInputs (← getNat j "view") (← getNatList j "vs"))
+    else return some (.setOutputs (← getNat j "view") (← getNatList j "vs"))
+  | "viewInits" => return some (.setInits (← getNat j "view") (← asList asKV (← j.getObjVal? "kvs")))
+  | "viewInitPut" => return some (.initPut (← getNat j "view") (← getStr j "key") (← getNat j "v"))
+  | "viewInitDel" => return some (.initDel (← getNat j "view") (← getStr j "key"))
+  | "viewDrop" => return some (.drop (← getNat j "view"))
+  | _ => return none
+
+def parseV (j : Json) : Except String VOp := do
+  match ← parseView j with
+  | some op => return .view op
+  | none => return .kernel (← parseAny j)
+
+/-- what the driver runs: the alphabet with views, or the model of a PROPOSED fix (`Model/KernelFix.lean`; sent by the
+harness only when its probe finds the patch applied to the real function) -/
+inductive DOp where
+  | v (op : VOp)
+  | rnvHoisted (g ip : Nat) (oldNodes newNodes oldVals newVals : List Nat)
+
+def dstep (vw : VWorld) : DOp → VWorld × Outcome
+  | .v op => vstep vw op
+  | .rnvHoisted g ip a b c d =>
+    let r := replaceNodesAndValuesHoisted vw.w g ip a b c d
+    ({ vw with w := r.1 }, r.2)
+
+def parseD (j : Json) : Except String DOp := do
+  let o ← getStr j "op"
+  if o == "replaceNodesAndValues" && (← getOpt j "hoisted" (fun x => (fromJson? x : Except String Bool))).getD false then
+    return .rnvHoisted (← getNat j "g") (← getNat j "ip") (← getNatList j "oldNodes") (← getNatList j "newNodes")
+      (← getNatList j "oldVals") (← getNatList j "newVals")
+  else return .v (← parseV j)
+
+def viewJ (r : ViewS) : Json :=
+  if r.alive then
+    obj [("inputs", natsJ r.inputs), ("outputs", natsJ r.outputs),
+      ("inits", Json.arr (r.inits.map (fun p => Json.arr #[Json.str p.1, natJ p.2])).toArray), ("nodes", natsJ r.nodes)]
+  else Json.null
+
 def pairsJ (xs : List (Nat × Nat)) : Json :=
   Json.arr (xs.map (fun p => Json.arr #[natJ p.1, natJ p.2])).toArray
 
@@ -227,25 +276,43 @@ def sortHyp (w : World) : AnyOp → Option Bool
       decide (((IrVerif.Sort.allGraphs t).map Prod.fst).Nodup))
   | _ => none
 
-def runOps (ops : List AnyOp) : List Json :=
-  let rec go (w : World) : List AnyOp → List Json
+/-- the conclusion of `C01_sort_exact` evaluated on an accepted `sort` call: every entry the sort model returned is the
+node sequence its graph has after the call -/
+def sortExact (w w' : World) : AnyOp → Outcome → Option Bool
+  | .one (.sort g), .ok =>
+    match IrVerif.Sort.sortModel (treeOf w g) with
+    | some r => some (r.all (fun p => decide ((w'.gr p.1).nodes = p.2)))
+    | none => some false
+  | _, _ => none
+
+def runOps (ops : List DOp) : List Json :=
+  let rec go (vw : VWorld) : List DOp → List Json
     | [] => []
-    | op :: rest =>
-      let (w', out) := stepAny w op
+    | vop :: rest =>
+      let (vw', out) := dstep vw vop
+      let (w, w') := (vw.w, vw'.w)
       let (o, k) := match out with
         | .ok => ("ok", "")
         | .raised k => ("raised", k)
-      obj ([("o", Json.str o), ("k", Json.str k), ("eq", Json.bool (decide (w' = w))), ("d", deltaJ w w')] ++
+      let extra := match vop with
+        | .rnvHoisted .. => []
+        | .v (.kernel op) =>
           (match sortHyp w op with
            | some b => [("sortWF", Json.bool b)]
-           | none => []))
-        :: go w' rest
-  go World.empty ops
+           | none => []) ++
+          (match sortExact w w' op out with
+           | some b => [("sortExact", Json.bool b)]
+           | none => [])
+        | .v (.view _) => [("veq", Json.bool (decide (vw' = vw)))]
+      obj ([("o", Json.str o), ("k", Json.str k), ("eq", Json.bool (decide (w' = w))), ("d", deltaJ w w')] ++ extra ++
+          (if vw'.views.isEmpty then [] else [("v", Json.arr (vw'.views.map viewJ).toArray)]))
+        :: go vw' rest
+  go {} ops
 
 def handle : Handler := fun m j =>
   match m with
   | "kernel.run" => some do
-      let ops ← (← getArr j "ops").mapM parseAny
+      let ops ← (← getArr j "ops").mapM parseD
       return obj [("steps", Json.arr (runOps ops).toArray)]
   | _ => none
 
